@@ -88,7 +88,7 @@ func (c cont) obj() interface{} {
 // with respect to one variable.
 func (t *elemType) elem(v, d int) Scalar {
 	s := NewScalar(t.st, float64(v))
-	if t.class == "real" && v != 0 {
+	if t.class == "real" && (v != 0 || d != 0) { // <<0, d>>: a variable whose current value is zero
 		m := s.(MagicScalar)
 		m.Alloc(1, 1)
 		m.SetDerivative(0, float64(d))
@@ -106,7 +106,7 @@ func (t *elemType) build(k string, rows, cols int, c [][2]int, st []int, constIm
 		if isDense(k) {
 			v := NullDenseVector(t.st, n)
 			for i := 0; i < n; i++ {
-				if c[i][0] != 0 {
+				if c[i] != [2]int{0, 0} {
 					v.At(i).Set(t.elem(c[i][0], c[i][1]))
 				}
 			}
@@ -126,7 +126,7 @@ func (t *elemType) build(k string, rows, cols int, c [][2]int, st []int, constIm
 		v := NullSparseVector(t.st, n)
 		for _, p := range st {
 			s := v.At(p - 1) // creates the entry: an explicitly stored zero unless set below
-			if c[p-1][0] != 0 {
+			if c[p-1] != [2]int{0, 0} {
 				s.Set(t.elem(c[p-1][0], c[p-1][1]))
 			}
 		}
@@ -136,7 +136,7 @@ func (t *elemType) build(k string, rows, cols int, c [][2]int, st []int, constIm
 	if isDense(k) {
 		m = NullDenseMatrix(t.st, rows, cols)
 		for x := 0; x < rows*cols; x++ {
-			if c[x][0] != 0 {
+			if c[x] != [2]int{0, 0} {
 				m.At(x/cols, x%cols).Set(t.elem(c[x][0], c[x][1]))
 			}
 		}
@@ -145,7 +145,7 @@ func (t *elemType) build(k string, rows, cols int, c [][2]int, st []int, constIm
 		for _, p := range st {
 			x := p - 1
 			s := m.At(x/cols, x%cols)
-			if c[x][0] != 0 {
+			if c[x] != [2]int{0, 0} {
 				s.Set(t.elem(c[x][0], c[x][1]))
 			}
 		}
